@@ -590,3 +590,102 @@ func checkObjListWhole(p *Program, r *Report) {
 	}
 	r.floor("OBJ-LIST-WHOLE", n, 2, "stores to the position list of an object record on the writer side")
 }
+
+// INDEX-ROOT: the index position recorded for a section (and copied to the
+// footer) is where the *last written* index level starts - the root a reader
+// must begin with.  Levels are written in a loop, lowest first, so the recorded
+// value has to be (re)taken inside that loop; a value taken once before the loop
+// names the lowest level as soon as there are two.  Checked on the SSA form: in
+// every function that stores a section's IndexOffset, each non-constant source
+// of the stored value is defined inside a loop of that function.
+func checkIndexRoot(p *Program, r *Report) {
+	bs := p.namedType("BlockStats")
+	st, _ := bs.Underlying().(*types.Struct)
+	idx := -1
+	for i := 0; st != nil && i < st.NumFields(); i++ {
+		if st.Field(i).Name() == "IndexOffset" {
+			idx = i
+		}
+	}
+	if idx < 0 {
+		fatalf("unresolved anchor: BlockStats.IndexOffset")
+	}
+	n := 0
+	for _, f := range p.Funcs {
+		// blocks that lie in some loop of f
+		inLoop := map[*ssa.BasicBlock]bool{}
+		for _, b := range f.Blocks {
+			for _, h := range b.Succs {
+				if h.Dominates(b) {
+					// natural loop of back edge b -> h
+					stack := []*ssa.BasicBlock{b}
+					seen := map[*ssa.BasicBlock]bool{h: true, b: true}
+					for len(stack) > 0 {
+						x := stack[len(stack)-1]
+						stack = stack[:len(stack)-1]
+						for _, q := range x.Preds {
+							if !seen[q] {
+								seen[q] = true
+								stack = append(stack, q)
+							}
+						}
+					}
+					for x := range seen {
+						inLoop[x] = true
+					}
+				}
+			}
+		}
+		for _, b := range f.Blocks {
+			for _, ins := range b.Instrs {
+				sto, ok := ins.(*ssa.Store)
+				if !ok {
+					continue
+				}
+				fa, ok := sto.Addr.(*ssa.FieldAddr)
+				if !ok || fa.Field != idx {
+					continue
+				}
+				pt, ok := fa.X.Type().Underlying().(*types.Pointer)
+				if !ok || !types.Identical(pt.Elem(), bs) {
+					continue
+				}
+				n++
+				bad := ""
+				seen := map[ssa.Value]bool{}
+				var walk func(v ssa.Value)
+				walk = func(v ssa.Value) {
+					if seen[v] {
+						return
+					}
+					seen[v] = true
+					switch x := v.(type) {
+					case *ssa.Const:
+					case *ssa.Phi:
+						for _, e := range x.Edges {
+							walk(e)
+						}
+					case *ssa.Convert:
+						walk(x.X)
+					case *ssa.ChangeType:
+						walk(x.X)
+					case ssa.Instruction:
+						if !inLoop[x.Block()] {
+							bad = "a value computed before the level loop (" + p.pos(x.Pos()) + ")"
+						}
+					default:
+						bad = "a value that is not computed in the level loop"
+					}
+				}
+				walk(sto.Val)
+				key := funcKey(f) + " / the recorded index position is taken per index level"
+				if bad != "" {
+					r.violate("INDEX-ROOT", key, p.pos(sto.Pos()), "the section's index position is "+bad+": with a multi-level index it names the lowest level instead of the root, so the footer sends readers of the format to the wrong block", nil)
+				} else {
+					r.ok("INDEX-ROOT", key, "every non-constant source of IndexOffset is defined inside the loop that writes the levels")
+				}
+			}
+		}
+	}
+	r.floor("INDEX-ROOT", n, 1, "stores to a section's IndexOffset")
+}
